@@ -113,4 +113,26 @@ theorem samePose_toMap' (e : Pose) (h : e.rot.IsUnit) (a b : Obj) :
     rw [hc, hr]
     exact ⟨rfl, rfl⟩
 
+/-! ### 3-D content: heights of objects and ego -/
+
+/-- map → ego undoes ego → map in 3-D, whatever the heights of the object and of the ego -/
+theorem toEgo3_apply3 (e : Pose) (h : e.rot.IsUnit) (p : V3) : toEgo3 e (e.motion.apply3 p) = p := by
+  cases p with
+  | mk x y z =>
+    have h2 := toEgo2_apply2 e h ⟨x, y⟩
+    unfold toEgo3 Motion.apply3
+    simp only
+    rw [h2]
+    congr 1
+    simp only [Pose.motion]
+    ring
+
+/-- what the filter reads from the map rendering of a 3-D object is the planar rendering of C10's filter
+model applied to what it reads from the ego rendering: neither the object's nor the ego's height is seen -/
+theorem filterView_toMap (e : Pose) (t : Tagged) :
+    filterViewMap e (t.toMap e) = Filter.renderMap e.planar (filterViewEgo t) := by
+  simp only [filterViewMap, filterViewEgo, Filter.renderMap, Tagged.toMap, Obj.toMap, Box.move, Motion.apply3,
+    Motion.apply2, Rot2.apply, V2.add, Pose.motion, Pose.planar, toEgo3, toEgo2, Filter.toMap, Filter.toEgo,
+    Option.map_some]
+
 end PEval.FrameChange
